@@ -151,3 +151,43 @@ PLANS["C13"] = {
         "the recording callback identifies its target by pointer identity through the public API after the call returns",
     ],
 }
+
+
+def _textmc(cells, rows, cols, aligns, decors, hdr):
+    return dict(CellNames=Raw(cells), MaxCols=cols, MaxRows=rows, AlignVals=Raw(aligns), DecorNames=Raw(decors), HdrChoices=Raw(hdr))
+
+
+PLANS["C03"] = {
+    "facets": "none",
+    "own": ["out.text", "out.errtext"],
+    "mc": [{
+        "module": "MCText",
+        "quick": _textmc('{"e", "a", "m"}', 2, 2, "{}", '{"default", "none"}', "{0, 1, 2}"),
+        "thorough": _textmc('{"e", "a", "w", "m"}', 3, 2, "{}", '{"default", "none"}', "{0, 1, 2}"),
+        "subst": {"quick": [{"n": 1}], "thorough": [{"n": 1}, {"n": 2}]},
+    }],
+    "random": [{"gen": gens.gen_text}],
+    "min_scenarios": {"quick": 3000, "thorough": 50000},
+    "assumptions": [
+        "display width is the library's own measure of each text line and of each output line (logged)",
+        "glyphs of a decoration are one cell wide (documented contract; generated custom glyphs are)",
+        "a header with zero cells still makes a header block of one (blank) line",
+    ],
+}
+
+PLANS["C04"] = {
+    "facets": "none",
+    "own": ["out.text", "out.errtext"],
+    "mc": [{
+        "module": "MCText",
+        "quick": _textmc('{"a", "m", "W5", "H3"}', 1, 2, '{"vL", "vR", "vC"}', '{"default"}', "{1}"),
+        "thorough": _textmc('{"a", "m", "W5", "W1", "H3", "H1"}', 1, 2, '{"vL", "vR", "vC"}', '{"default", "none"}', "{2}"),
+        "subst": {"quick": [{"n": 1}], "thorough": [{"n": 1}]},
+    }],
+    "random": [{"gen": gens.gen_text_sized}],
+    "min_scenarios": {"quick": 3000, "thorough": 50000},
+    "assumptions": [
+        "multi-line items that also declare a width are not generated (the statement speaks of single-line items only)",
+        "alignment values are the library's Left/Right/Center (other values make the library panic by design: TestingInvalidAlignment)",
+    ],
+}
